@@ -398,6 +398,7 @@ Record pg_inv (al0 : gmap (Z * Z) alloc) (cl0 : gmap (Z * Z) claim) (p e : Z) (G
      exists g ac a, G g /\ In ac (sg_claims g) /\ ac_id ac = id /\ ac_client ac = c /\
        al0 !! (c, id) = Some a /\ can_claim_alloc ac p a e (sg_expiry g) = true /\
        ca_claims acc !! (p, id) = Some (mk_claim p e (sg_sector g) a);
+  pg_fresh : forall c id, In (c, id) K -> cl0 !! (p, id) = None;
   pg_mono : forall k v, cl0 !! k = Some v -> ca_claims acc !! k = Some v;
   pg_new : forall k v, ca_claims acc !! k = Some v ->
      cl0 !! k = Some v \/ exists id, k = (p, id) /\ In id (map snd K) /\ cl0 !! k = None;
@@ -409,6 +410,7 @@ Lemma pg_inv_init al0 cl0 p e G :
 Proof.
   constructor; cbn; auto.
   - constructor.
+  - intros c id [].
   - intros c id [].
 Qed.
 
@@ -426,7 +428,7 @@ Lemma pg_inv_fail al0 cl0 p e G K acc k :
   pg_inv al0 cl0 p e G K
     {| ca_claims := ca_claims acc; ca_allocs := ca_allocs acc; ca_codes := ca_codes acc ++ [k];
        ca_spaces := ca_spaces acc; ca_total := ca_total acc; ca_evs := ca_evs acc |}.
-Proof. intros [A B C D E F H]. constructor; cbn; auto. Qed.
+Proof. intros [A B C D E F0 F H]. constructor; cbn; auto. Qed.
 
 Lemma LNoDup_app {A} (l1 l2 : list A) :
   NoDup l1 -> NoDup l2 -> (forall x, In x l1 -> In x l2 -> False) -> NoDup (l1 ++ l2).
@@ -459,7 +461,7 @@ Lemma pg_inv_group al0 cl0 p e (G : sgroup -> Prop) K acc g news cl al space ev 
     {| ca_claims := cl; ca_allocs := al; ca_codes := ca_codes acc ++ [OK];
        ca_spaces := ca_spaces acc ++ [space]; ca_total := ca_total acc + space; ca_evs := ev |}.
 Proof.
-  intros HG [Hnd Hal Htot Hev Hwit Hmono Hnew] Hgn Hap.
+  intros HG [Hnd Hal Htot Hev Hwit Hfresh0 Hmono Hnew] Hgn Hap.
   apply group_new_claims_spec in Hgn.
   apply apply_new_claims_spec in Hap as (Hnd2 & Habs & -> & -> & -> & ->).
   (* every new entry: its allocation is in al0, outside K *)
@@ -502,6 +504,10 @@ Proof.
       subst a'. exists g, c0, a. splits; auto.
       * rewrite <- Hkk. exact Ha.
       * rewrite <- Hid, <- Hsn. apply put_new_lookup_in; assumption.
+  - intros c id Hin. apply in_app_or in Hin as [Hin|Hin]; [eapply Hfresh0; eauto|].
+    apply in_map_iff in Hin as (n & Hk & Hn). injection Hk as _ <-.
+    specialize (Habs n Hn). destruct (cl0 !! (p, fst n)) eqn:E0; [|reflexivity].
+    rewrite (Hmono _ _ E0) in Habs. discriminate.
   - intros k v Hk. rewrite put_new_lookup_other; [apply Hmono; exact Hk|].
     intros n Hn ->. specialize (Habs n Hn). rewrite (Hmono _ _ Hk) in Habs. discriminate.
   - intros k v Hk.
@@ -1186,7 +1192,7 @@ Lemma inv_claim st e c gs aon st' r ev :
   reg_inv st -> reg_inv st' /\ wld st' = wld st.
 Proof.
   intros H I. apply claim_allocations_spec in H as (_ & K & acc & HK & Hbo & Hw & Hreg & _).
-  split; [|exact Hw]. destruct HK as [Hnd Hal Htot Hev Hwit Hmono Hnew].
+  split; [|exact Hw]. destruct HK as [Hnd Hal Htot Hev Hwit Hfresh Hmono Hnew].
   apply burn_opt_spec in Hbo as (He & Hallow & _ & _ & Hbal).
   destruct I as [It Ia [Ial Iuq] Icl In_ Ib].
   constructor.
@@ -1245,7 +1251,7 @@ Proof.
   unfold extend_claim_terms. intros H I.
   destruct (extend_terms _ _ _ _ _) as [[cl codes] ev0] eqn:Ee. injection H as <- _ _.
   split; [|reflexivity]. apply (reg_inv_frame st); cbn; auto; try apply I.
-  eapply claims_wf_rel; [|reflexivity|apply I]. cbn. eapply extend_terms_rel. exact Ee.
+  apply (claims_wf_rel (reg st)); [|reflexivity|exact (ri_claims _ I)]. cbn. eapply extend_terms_rel. exact Ee.
 Qed.
 
 Theorem exec_inv st o st' r ev :
@@ -1257,8 +1263,8 @@ Proof.
   - eapply inv_remove_verifier; eauto.
   - eapply inv_add_client; eauto.
   - eapply inv_remove_data_cap; eauto.
-  - apply rbind_ok in H as ([[s i] v] & H & _). eapply inv_transfer; eauto.
-  - apply rbind_ok in H as ([[s i] v] & H & _). eapply inv_transfer_from; eauto.
+  - apply rbind_ok in H as ([[s i] v] & H & H2). cbn in H2. injection H2 as <- _ _. eapply inv_transfer; eauto.
+  - apply rbind_ok in H as ([[s i] v] & H & H2). cbn in H2. injection H2 as <- _ _. eapply inv_transfer_from; eauto.
   - eapply inv_claim; eauto.
   - eapply inv_remove_expired_allocations; eauto.
   - eapply inv_remove_expired_claims; eauto.
@@ -1290,4 +1296,573 @@ Proof.
   - injection H as <- _ _. split; [|reflexivity].
     apply (reg_inv_frame st); cbn; auto; try apply I.
     intros o. cbn. rewrite lookup_delete_ne; [apply I|]. intros [= Heq _]. congruence.
+Qed.
+
+(* ---------- histories ---------- *)
+Definition callers_ok (ops : list op) : Prop := Forall (fun o => op_caller o <> VR) ops.
+
+Lemma step_inv st o :
+  world_ok (wld st) -> op_caller o <> VR -> reg_inv st ->
+  reg_inv (fst (step st o)) /\ wld (fst (step st o)) = wld st.
+Proof.
+  intros Hw Hc I. unfold step. destruct (exec st o) as [[[st' r] ev]|c] eqn:E; cbn; [|auto].
+  eapply exec_inv; eauto.
+Qed.
+
+Lemma run_inv_gen st ops :
+  world_ok (wld st) -> callers_ok ops -> reg_inv st ->
+  reg_inv (run st ops) /\ wld (run st ops) = wld st.
+Proof.
+  revert st. induction ops as [|o r IH]; intros st Hw Hc I; [cbn; auto|].
+  inversion Hc as [|? ? Ho Hr]; subst.
+  destruct (step_inv st o Hw Ho I) as [I' Hw'].
+  destruct (IH (fst (step st o))) as [I'' Hw'']; auto; [rewrite Hw'; exact Hw|].
+  change (run st (o :: r)) with (run (fst (step st o)) r).
+  split; [exact I''|congruence].
+Qed.
+
+Theorem run_inv w ops : world_ok w -> callers_ok ops -> reg_inv (run (init w) ops).
+Proof. intros Hw Hc. apply run_inv_gen; auto. apply init_inv. Qed.
+
+(* ---------- the token invariant needs no hypothesis on callers ---------- *)
+Lemma deliver_tok_inv st e from to am p st' ids ev :
+  deliver st e from to am p = Ok (st', ids, ev) -> tok_inv (tok st) -> tok_inv (tok st').
+Proof.
+  unfold deliver. intros H I. destruct (to =? VR).
+  - apply receiver_hook_spec in H as (ars & ers & ups & _ & _ & _ & _ & Hbo & _).
+    apply burn_opt_spec in Hbo as (He & _). eapply tk_effect_inv; eauto.
+  - destruct (hook_code _ _ =? OK); [|discriminate]. injection H as <- _ _. exact I.
+Qed.
+
+Theorem exec_tok_inv st o st' r ev :
+  exec st o = Ok (st', r, ev) -> tok_inv (tok st) -> tok_inv (tok st').
+Proof.
+  intros H I. destruct o; cbn [exec] in H.
+  - unfold add_verifier in H. rinv H. injection H as <- _ _. exact I.
+  - unfold remove_verifier in H. rinv H. injection H as <- _ _. exact I.
+  - unfold add_verified_client in H. rinv H. injection H as <- _ _. cbn.
+    apply tk_mint_spec in E5 as (_ & He & _). eapply tk_effect_inv; eauto.
+  - unfold remove_data_cap in H. rinv H. injection H as <- _ _. cbn.
+    apply burn_opt_intro, burn_opt_spec in E8 as (He & _). eapply tk_effect_inv; eauto.
+  - apply rbind_ok in H as ([[s i] v] & H & H2). cbn in H2. injection H2 as <- _ _.
+    unfold dc_transfer in H. destruct (negb _); [discriminate|].
+    apply rbind_ok in H as (t1 & Ht1 & Hd). eapply deliver_tok_inv; [exact Hd|]. cbn.
+    apply tk_transfer_spec in Ht1 as (_ & _ & _ & He & _). eapply tk_effect_inv; eauto.
+  - apply rbind_ok in H as ([[s i] v] & H & H2). cbn in H2. injection H2 as <- _ _.
+    unfold dc_transfer_from in H. destruct (negb _); [discriminate|].
+    apply rbind_ok in H as (t1 & Ht1 & Hd). eapply deliver_tok_inv; [exact Hd|]. cbn.
+    apply tk_transfer_from_spec in Ht1 as (al' & _ & _ & Ht & _).
+    apply tk_transfer_spec in Ht as (_ & _ & _ & He & _). apply tk_effect_set_allow in He.
+    eapply tk_effect_inv; eauto.
+  - apply claim_allocations_spec in H as (_ & K & acc & _ & Hbo & _).
+    apply burn_opt_spec in Hbo as (He & _). eapply tk_effect_inv; eauto.
+  - apply remove_expired_allocations_spec in H as (_ & _ & _ & Ht & _).
+    apply tk_transfer_spec in Ht as (_ & _ & _ & He & _). eapply tk_effect_inv; eauto.
+  - apply remove_expired_claims_spec in H as (_ & Ht & _). rewrite Ht. exact I.
+  - unfold extend_claim_terms in H. destruct (extend_terms _ _ _ _ _) as [[? ?] ?]. injection H as <- _ _. exact I.
+  - unfold get_claims in H. injection H as <- _ _. exact I.
+  - apply rbind_ok in H as (t & Ht & H). injection H as <- _ _. cbn.
+    apply tk_burn_spec in Ht as (_ & _ & He & _). eapply tk_effect_inv; eauto.
+  - apply rbind_ok in H as (t & Ht & H). injection H as <- _ _. cbn.
+    apply tk_burn_from_spec in Ht as (al' & _ & _ & Ht & _).
+    apply tk_burn_spec in Ht as (_ & _ & He & _). apply tk_effect_set_allow in He.
+    eapply tk_effect_inv; eauto.
+  - destruct (delta <? 0); [discriminate|]. injection H as <- _ _. exact I.
+  - destruct (delta <? 0); [discriminate|]. injection H as <- _ _. exact I.
+  - injection H as <- _ _. exact I.
+Qed.
+
+Lemma init_tok_inv w : tok_inv (tok (init w)).
+Proof. apply (ri_tok _ (init_inv w)). Qed.
+
+Theorem run_tok_inv w ops : tok_inv (tok (run (init w) ops)).
+Proof.
+  assert (G : forall st, tok_inv (tok st) -> tok_inv (tok (run st ops))).
+  { induction ops as [|o r IH]; intros st I; [exact I|].
+    change (run st (o :: r)) with (run (fst (step st o)) r). apply IH.
+    unfold step. destruct (exec st o) as [[[st' x] ev]|c] eqn:E; cbn; [|exact I].
+    eapply exec_tok_inv; eauto. }
+  apply G, init_tok_inv.
+Qed.
+
+Theorem supply_is_sum_of_balances w ops :
+  let t := tok (run (init w) ops) in
+  supply t = msum (fun x => x) (bal t) /\ (forall k v, bal t !! k = Some v -> 0 < v).
+Proof. destruct (run_tok_inv w ops) as (H1 & _ & H3). split; [exact H1|exact H3]. Qed.
+
+Theorem supply_is_minted_minus_burnt w ops :
+  let t := tok (run (init w) ops) in supply t = minted t - burnt t.
+Proof. destruct (run_tok_inv w ops) as (_ & H2 & _). exact H2. Qed.
+
+Theorem registry_balance_is_unclaimed_allocations w ops :
+  world_ok w -> callers_ok ops ->
+  let st := run (init w) ops in
+  balance_of (tok st) VR = dc2tok (msum a_size (allocs (reg st))).
+Proof. intros Hw Hc. apply (ri_bal _ (run_inv w ops Hw Hc)). Qed.
+
+(* ---------- verifier allowance ---------- *)
+Theorem verifier_allowance_exact st c a al st' o :
+  step st (AddClient c a al) = (st', o) -> code o = OK ->
+  exists cap, verifiers (reg st) !! c = Some cap /\ al <= cap /\
+    verifiers (reg st') !! c = Some (cap - al) /\
+    (forall v, v <> c -> verifiers (reg st') !! v = verifiers (reg st) !! v) /\
+    balance_of (tok st') a = balance_of (tok st) a + dc2tok al /\
+    (forall k, k <> a -> balance_of (tok st') k = balance_of (tok st) k) /\
+    supply (tok st') = supply (tok st) + dc2tok al.
+Proof.
+  unfold step. cbn [exec]. intros H Hc.
+  destruct (add_verified_client st c a al) as [[[s r] ev]|k] eqn:E.
+  - injection H as <- <-. unfold add_verified_client in E. rinv E. injection E as <- _ _.
+    match goal with H : (_ <? al) = false |- _ => apply Z.ltb_ge in H end.
+    match goal with H : tk_mint _ _ _ _ = Ok _ |- _ => apply tk_mint_spec in H as (_ & He & _ & _ & Hbal & _) end.
+    exists z. cbn. splits; auto.
+    + apply lookup_insert.
+    + intros v Hv. rewrite lookup_insert_ne by congruence. reflexivity.
+    + rewrite Hbal. destruct (decide (a = a)); [reflexivity|congruence].
+    + intros k Hk. rewrite Hbal. destruct (decide (k = a)); [congruence|reflexivity].
+    + apply He.
+  - injection H as <- <-. cbn in Hc. subst k. exfalso.
+    unfold add_verified_client in E. rinv E; try discriminate.
+    + injection E as E. rewrite E in *. discriminate.
+    + injection E as ->. unfold tk_mint in *. rinv E6; discriminate.
+Qed.
+
+Definition changes_verifiers (o : op) : bool :=
+  match o with AddVerifier _ _ _ | RemoveVerifier _ _ | AddClient _ _ _ => true | _ => false end.
+
+Theorem verifiers_only_by_root_or_grant st o :
+  changes_verifiers o = false -> verifiers (reg (fst (step st o))) = verifiers (reg st).
+Proof.
+  intros Hk. unfold step. destruct (exec st o) as [[[st' r] ev]|c] eqn:E; cbn; [|reflexivity].
+  destruct o; try discriminate Hk; cbn [exec] in E.
+  - unfold remove_data_cap in E. rinv E. injection E as <- _ _. reflexivity.
+  - apply rbind_ok in E as ([[s i] v] & H & H2). cbn in H2. injection H2 as <- _ _.
+    unfold dc_transfer in H. destruct (negb _); [discriminate|].
+    apply rbind_ok in H as (t1 & _ & Hd). unfold deliver in Hd. destruct (to =? VR).
+    + apply receiver_hook_spec in Hd as (? & ? & ? & _ & _ & _ & _ & _ & _ & Hv & _). exact Hv.
+    + destruct (_ =? OK); [|discriminate]. injection Hd as <- _ _. reflexivity.
+  - apply rbind_ok in E as ([[s i] v] & H & H2). cbn in H2. injection H2 as <- _ _.
+    unfold dc_transfer_from in H. destruct (negb _); [discriminate|].
+    apply rbind_ok in H as (t1 & _ & Hd). unfold deliver in Hd. destruct (to =? VR).
+    + apply receiver_hook_spec in Hd as (? & ? & ? & _ & _ & _ & _ & _ & _ & Hv & _). exact Hv.
+    + destruct (_ =? OK); [|discriminate]. injection Hd as <- _ _. reflexivity.
+  - apply claim_allocations_spec in E as (_ & K & acc & _ & _ & _ & Hr & _). rewrite Hr. reflexivity.
+  - apply remove_expired_allocations_spec in E as (_ & _ & _ & _ & _ & Hr & _). rewrite Hr. reflexivity.
+  - apply remove_expired_claims_spec in E as (_ & _ & _ & Hr & _). rewrite Hr. reflexivity.
+  - unfold extend_claim_terms in E. destruct (extend_terms _ _ _ _ _) as [[? ?] ?]. injection E as <- _ _. reflexivity.
+  - unfold get_claims in E. injection E as <- _ _. reflexivity.
+  - apply rbind_ok in E as (t & _ & H). injection H as <- _ _. reflexivity.
+  - apply rbind_ok in E as (t & _ & H). injection H as <- _ _. reflexivity.
+  - destruct (delta <? 0); [discriminate|]. injection E as <- _ _. reflexivity.
+  - destruct (delta <? 0); [discriminate|]. injection E as <- _ _. reflexivity.
+  - injection E as <- _ _. reflexivity.
+Qed.
+
+(* ---------- claim / refund conditions ---------- *)
+Definition emits_claims (o : op) : bool := match o with ClaimAllocs _ _ _ _ => true | _ => false end.
+Definition emits_refunds (o : op) : bool := match o with RemoveExpAllocs _ _ _ _ => true | _ => false end.
+Definition emits_allocs (o : op) : bool :=
+  match o with Transfer _ _ _ _ _ | TransferFrom _ _ _ _ _ _ => true | _ => false end.
+
+Definition alloc_event (e : event) : bool :=
+  match e with EvAlloc _ | EvAllocRemoved _ | EvClaim _ => true | _ => false end.
+
+Theorem claim_conditions st e c gs aon st' o id :
+  step st (ClaimAllocs e c gs aon) = (st', o) -> In (EvClaim id) (evs o) ->
+  code o = OK /\ is_miner (wld st) c = true /\
+  exists g ac a,
+    In g gs /\ In ac (sg_claims g) /\ ac_id ac = id /\
+    allocs (reg st) !! (ac_client ac, id) = Some a /\
+    c = a_provider a /\ ac_client ac = a_client a /\ ac_data ac = a_data a /\ ac_size ac = a_size a /\
+    e <= a_exp a /\ a_tmin a <= sg_expiry g - e <= a_tmax a /\
+    claims (reg st') !! (c, id) = Some (mk_claim c e (sg_sector g) a) /\
+    allocs (reg st') !! (ac_client ac, id) = None /\
+    claims (reg st) !! (c, id) = None.
+Proof.
+  unfold step. cbn [exec]. intros H Hin.
+  destruct (claim_allocations st e c gs aon) as [[[s r] ev]|k] eqn:E.
+  - injection H as <- <-. cbn in Hin. split; [reflexivity|].
+    apply claim_allocations_spec in E as (Hm & K & acc & HK & _ & _ & Hreg & -> & _).
+    split; [exact Hm|]. destruct HK as [Hnd Hal Htot Hev Hwit Hfresh Hmono Hnew].
+    rewrite Hev in Hin. apply in_map_iff in Hin as ([c0 i] & [= ->] & HinK).
+    destruct (Hwit c0 id HinK) as (g & ac & a & Hg & Hac & Hid & Hcl & Ha & Hcan & Hclaim).
+    apply can_claim_alloc_spec in Hcan as (H1 & H2 & H3 & H4 & H5 & H6).
+    exists g, ac, a. rewrite Hreg. cbn. subst c0. splits; auto; try lia.
+    + rewrite Hal, del_all_lookup. destruct (decide ((ac_client ac, id) ∈ K)) as [|Hn]; [reflexivity|].
+      exfalso. apply Hn, elem_of_list_In. exact HinK.
+    + (* an existing claim (c, id) would have made put_if_absent fail *)
+      eapply Hfresh. exact HinK.
+  - injection H as <- <-. destruct Hin.
+Qed.
+
+Theorem refund_conditions st e caller client ids st' o id :
+  step st (RemoveExpAllocs e caller client ids) = (st', o) -> In (EvAllocRemoved id) (evs o) ->
+  code o = OK /\ client <> VR /\
+  exists a rm,
+    allocs (reg st) !! (client, id) = Some a /\ a_exp a <= e /\
+    allocs (reg st') !! (client, id) = None /\
+    In id rm /\ NoDup rm /\ evs o = map EvAllocRemoved rm /\
+    (forall i, In i rm -> exists x, allocs (reg st) !! (client, i) = Some x /\ a_exp x <= e) /\
+    let refund := dc2tok (vsum a_size (allocs (reg st)) (map (pair client) rm)) in
+    balance_of (tok st') client = balance_of (tok st) client + refund /\
+    balance_of (tok st') VR = balance_of (tok st) VR - refund /\
+    supply (tok st') = supply (tok st) /\
+    (forall k, k <> client -> k <> VR -> balance_of (tok st') k = balance_of (tok st) k).
+Proof.
+  unfold step. cbn [exec]. intros H Hin.
+  destruct (remove_expired_allocations st e client ids) as [[[s r] ev]|k] eqn:E.
+  - injection H as <- <-. cbn in Hin. split; [reflexivity|].
+    apply remove_expired_allocations_spec in E as (Hnd & Hne & _ & Ht & _ & Hreg & ->).
+    split; [exact Hne|].
+    apply in_map_iff in Hin as (i & [= ->] & Hi).
+    destruct (to_remove_of_In _ _ _ _ _ _ Hi) as (a & Ha & Hexp).
+    set (rm := to_remove_of a_exp (allocs (reg st)) client e ids) in *.
+    apply tk_transfer_spec in Ht as (_ & _ & _ & He & _ & _ & _ & Hs & Hbal & _).
+    assert (Hne' : VR <> client) by congruence. specialize (Hbal Hne').
+    exists a, rm. rewrite Hreg. cbn. splits; auto.
+    + rewrite del_all_lookup. destruct (decide ((client, id) ∈ map (pair client) rm)) as [|Hn]; [reflexivity|].
+      exfalso. apply Hn, elem_of_list_In, in_map. exact Hi.
+    + intros i Hin'. apply (to_remove_of_In _ _ _ _ _ _ Hin').
+    + rewrite Hbal. destruct (decide (client = VR)); [congruence|].
+      destruct (decide (client = client)); [reflexivity|congruence].
+    + rewrite Hbal. destruct (decide (VR = VR)); [lia|congruence].
+    + intros k Hk1 Hk2. rewrite Hbal. destruct (decide (k = VR)); [congruence|].
+      destruct (decide (k = client)); [congruence|reflexivity].
+  - injection H as <- <-. destruct Hin.
+Qed.
+
+(* ---------- the fate of an allocation id, read off the event trace ---------- *)
+Inductive fate := FNone | FOpen | FClaimed | FRefunded | FBad.
+
+Definition fate_step (id : Z) (f : fate) (e : event) : fate :=
+  match e with
+  | EvAlloc i => if i =? id then match f with FNone => FOpen | _ => FBad end else f
+  | EvClaim i => if i =? id then match f with FOpen => FClaimed | _ => FBad end else f
+  | EvAllocRemoved i => if i =? id then match f with FOpen => FRefunded | _ => FBad end else f
+  | _ => f
+  end.
+
+Definition fate_of (id : Z) (tr : list event) : fate := fold_left (fate_step id) tr FNone.
+
+Fixpoint runt (st : state) (tr : list event) (ops : list op) : state * list event :=
+  match ops with
+  | [] => (st, tr)
+  | o :: r => runt (fst (step st o)) (tr ++ evs (snd (step st o))) r
+  end.
+
+Definition trace (st : state) (ops : list op) : list event := snd (runt st [] ops).
+
+Lemma runt_fst st tr ops : fst (runt st tr ops) = run st ops.
+Proof. revert st tr. induction ops as [|o r IH]; intros st tr; [reflexivity|]. cbn [runt]. rewrite IH. reflexivity. Qed.
+
+Lemma fate_fold_irrelevant id l f :
+  Forall (fun e => alloc_event e = false) l -> fold_left (fate_step id) l f = f.
+Proof.
+  revert f. induction l as [|e r IH]; intros f H; [reflexivity|].
+  inversion H as [|? ? He Hr]; subst. cbn [fold_left]. rewrite IH by exact Hr.
+  destruct e; cbn in He; try discriminate; reflexivity.
+Qed.
+
+Lemma mem_In x l : mem x l = true <-> In x l.
+Proof.
+  unfold mem. rewrite existsb_exists. split.
+  - intros (y & Hy & He). apply Z.eqb_eq in He. subst. exact Hy.
+  - intros H. exists x. split; [exact H|apply Z.eqb_refl].
+Qed.
+
+Lemma mem_not_In x l : mem x l = false <-> ~ In x l.
+Proof. rewrite <- mem_In. destruct (mem x l); split; congruence. Qed.
+
+Section FoldKind.
+  Variable id : Z.
+  Variable C : Z -> event.
+  Variable tau : fate -> fate.
+  Hypothesis HC : forall i f, fate_step id f (C i) = if i =? id then tau f else f.
+
+  Lemma fate_fold_kind ids f :
+    NoDup ids ->
+    fold_left (fate_step id) (map C ids) f = if mem id ids then tau f else f.
+  Proof.
+    revert f. induction ids as [|i r IH]; intros f Hnd; cbn [map fold_left]; [reflexivity|].
+    inversion Hnd as [|? ? Hn Hnd']; subst. rewrite IH by exact Hnd'. rewrite HC.
+    unfold mem at 2. cbn [existsb]. fold (mem id r). rewrite (Z.eqb_sym id i).
+    destruct (i =? id) eqn:Ei; cbn [orb]; [|reflexivity].
+    apply Z.eqb_eq in Ei. subst i. apply mem_not_In in Hn. rewrite Hn. reflexivity.
+  Qed.
+End FoldKind.
+
+Definition tau_alloc (f : fate) := match f with FNone => FOpen | _ => FBad end.
+Definition tau_claim (f : fate) := match f with FOpen => FClaimed | _ => FBad end.
+Definition tau_refund (f : fate) := match f with FOpen => FRefunded | _ => FBad end.
+
+(* the three shapes a successful message can have with respect to the allocation table *)
+Inductive shape (st st' : state) (ev : list event) : Prop :=
+| ShNone : Forall (fun e => alloc_event e = false) ev ->
+           allocs (reg st') = allocs (reg st) -> next_id (reg st') = next_id (reg st) -> shape st st' ev
+| ShNew from ars rest :
+    ev = map EvAlloc (seqZ (next_id (reg st)) (length ars)) ++ rest ->
+    Forall (fun e => alloc_event e = false) rest ->
+    allocs (reg st') = insert_allocs (allocs (reg st)) from (next_id (reg st)) ars ->
+    next_id (reg st') = next_id (reg st) + Z.of_nat (length ars) -> shape st st' ev
+| ShDel (C : Z -> event) (K : list (Z * Z)) :
+    (C = EvClaim \/ C = EvAllocRemoved) ->
+    ev = map (fun k => C (snd k)) K -> NoDup (map snd K) ->
+    (forall k, In k K -> is_Some (allocs (reg st) !! k)) ->
+    allocs (reg st') = del_all (allocs (reg st)) K -> next_id (reg st') = next_id (reg st) ->
+    shape st st' ev.
+
+Lemma Forall_map_irrelevant {A} (f : A -> event) l :
+  (forall x, alloc_event (f x) = false) -> Forall (fun e => alloc_event e = false) (map f l).
+Proof. intros H. induction l; cbn; constructor; auto. Qed.
+
+Lemma deliver_shape st e from to am p st' ids ev :
+  deliver st e from to am p = Ok (st', ids, ev) -> shape st st' ev.
+Proof.
+  unfold deliver. intros H. destruct (to =? VR).
+  - apply receiver_hook_spec in H as (ars & ers & ups & _ & _ & _ & _ & _ & _ & _ & _ & Hal & _ & Hnx & -> & ->).
+    eapply ShNew; eauto. apply Forall_map_irrelevant. reflexivity.
+  - destruct (_ =? OK); [|discriminate]. injection H as <- _ <-. apply ShNone; auto.
+Qed.
+
+Lemma exec_shape st o st' r ev : exec st o = Ok (st', r, ev) -> shape st st' ev.
+Proof.
+  intros H. destruct o; cbn [exec] in H.
+  - unfold add_verifier in H. rinv H. injection H as <- _ <-. apply ShNone; auto; repeat constructor.
+  - unfold remove_verifier in H. rinv H. injection H as <- _ <-. apply ShNone; auto; repeat constructor.
+  - unfold add_verified_client in H. rinv H. injection H as <- _ <-. apply ShNone; auto; repeat constructor.
+  - unfold remove_data_cap in H. rinv H. injection H as <- _ <-. apply ShNone; auto.
+  - apply rbind_ok in H as ([[s i] v] & H & H2). cbn in H2. injection H2 as <- _ <-.
+    unfold dc_transfer in H. destruct (negb _); [discriminate|].
+    apply rbind_ok in H as (t1 & _ & Hd). apply deliver_shape in Hd.
+    destruct Hd; [apply ShNone|eapply ShNew|eapply ShDel]; eauto.
+  - apply rbind_ok in H as ([[s i] v] & H & H2). cbn in H2. injection H2 as <- _ <-.
+    unfold dc_transfer_from in H. destruct (negb _); [discriminate|].
+    apply rbind_ok in H as (t1 & _ & Hd). apply deliver_shape in Hd.
+    destruct Hd; [apply ShNone|eapply ShNew|eapply ShDel]; eauto.
+  - apply claim_allocations_spec in H as (_ & K & acc & HK & _ & _ & Hreg & -> & _).
+    destruct HK as [Hnd Hal Htot Hev Hwit Hfresh Hmono Hnew].
+    apply (ShDel _ _ _ EvClaim K); auto; try (rewrite Hreg; cbn; auto).
+    intros [c i] Hk. destruct (Hwit c i Hk) as (g & ac & a & _ & _ & _ & _ & Ha & _). eauto.
+  - apply remove_expired_allocations_spec in H as (Hnd & _ & _ & _ & _ & Hreg & ->).
+    set (rm := to_remove_of a_exp (allocs (reg st)) client epoch ids) in *.
+    apply (ShDel _ _ _ EvAllocRemoved (map (pair client) rm)); auto; try (rewrite Hreg; cbn; auto).
+    + rewrite map_map. reflexivity.
+    + rewrite map_map. cbn. rewrite map_id. exact Hnd.
+    + intros k Hk. apply in_map_iff in Hk as (i & <- & Hi).
+      destruct (to_remove_of_In _ _ _ _ _ _ Hi) as (a & Ha & _). eauto.
+  - apply remove_expired_claims_spec in H as (_ & _ & _ & Hreg & ->). apply ShNone; try (rewrite Hreg; reflexivity).
+    apply Forall_map_irrelevant. reflexivity.
+  - unfold extend_claim_terms in H. destruct (extend_terms _ _ _ _ _) as [[cl codes] ev0] eqn:Ee.
+    injection H as <- _ <-. apply ShNone; auto.
+    assert (G : forall terms cl codes ev cl' codes' ev',
+               extend_terms cl caller terms codes ev = (cl', codes', ev') ->
+               Forall (fun e => alloc_event e = false) ev -> Forall (fun e => alloc_event e = false) ev').
+    { clear. induction terms as [|[[p i] tm] rest IH]; intros cl codes ev cl' codes' ev' H Hev; cbn in H.
+      - injection H as _ _ <-. exact Hev.
+      - destruct (_ <? tm); [eapply IH; eauto|]. destruct (cl !! (p, i)); [|eapply IH; eauto].
+        destruct (negb _); [eapply IH; eauto|]. destruct (tm <? _); [eapply IH; eauto|].
+        eapply IH; [exact H|]. apply Forall_app. split; [exact Hev|repeat constructor]. }
+    eapply G; [exact Ee|constructor].
+  - unfold get_claims in H. injection H as <- _ <-. apply ShNone; auto.
+  - apply rbind_ok in H as (t & _ & H). injection H as <- _ <-. apply ShNone; auto.
+  - apply rbind_ok in H as (t & _ & H). injection H as <- _ <-. apply ShNone; auto.
+  - destruct (delta <? 0); [discriminate|]. injection H as <- _ <-. apply ShNone; auto.
+  - destruct (delta <? 0); [discriminate|]. injection H as <- _ <-. apply ShNone; auto.
+  - injection H as <- _ <-. apply ShNone; auto.
+Qed.
+
+Record fate_inv (st : state) (tr : list event) : Prop := {
+  fi_bad : forall id, fate_of id tr <> FBad;
+  fi_open : forall id, fate_of id tr = FOpen <-> exists c a, allocs (reg st) !! (c, id) = Some a;
+  fi_none : forall id, next_id (reg st) <= id -> fate_of id tr = FNone;
+}.
+
+Lemma fate_of_app id tr ev : fate_of id (tr ++ ev) = fold_left (fate_step id) ev (fate_of id tr).
+Proof. unfold fate_of. apply fold_left_app. Qed.
+
+Lemma fate_step_alloc id i f : fate_step id f (EvAlloc i) = if i =? id then tau_alloc f else f.
+Proof. reflexivity. Qed.
+Lemma fate_step_claim id i f : fate_step id f (EvClaim i) = if i =? id then tau_claim f else f.
+Proof. reflexivity. Qed.
+Lemma fate_step_refund id i f : fate_step id f (EvAllocRemoved i) = if i =? id then tau_refund f else f.
+Proof. reflexivity. Qed.
+
+Lemma del_fate st st' tr (C : Z -> event) (tau : fate -> fate) K :
+  (forall id i f, fate_step id f (C i) = if i =? id then tau f else f) ->
+  tau FOpen <> FBad -> tau FOpen <> FOpen ->
+  allocs_wf (reg st) -> NoDup (map snd K) ->
+  (forall k, In k K -> is_Some (allocs (reg st) !! k)) ->
+  allocs (reg st') = del_all (allocs (reg st)) K -> next_id (reg st') = next_id (reg st) ->
+  fate_inv st tr -> fate_inv st' (tr ++ map (fun k => C (snd k)) K).
+Proof.
+  intros HC Ht1 Ht2 [Hal Huq] Hnd Hpres Ha Hn [Fb Fo Fn].
+  assert (Hf : forall id, fate_of id (tr ++ map (fun k => C (snd k)) K) =
+               if mem id (map snd K) then tau (fate_of id tr) else fate_of id tr).
+  { intros id. rewrite fate_of_app. rewrite <- (map_map snd C).
+    apply (fate_fold_kind id C tau); [apply HC|exact Hnd]. }
+  assert (Hopen : forall id, mem id (map snd K) = true -> fate_of id tr = FOpen).
+  { intros id Hm. apply mem_In, in_map_iff in Hm as ([c i] & Hi & Hk). cbn in Hi. subst i.
+    destruct (Hpres _ Hk) as [a Hc]. apply Fo. eauto. }
+  constructor; intros id; rewrite Hf.
+  - destruct (mem id _) eqn:Em; [|apply Fb]. rewrite (Hopen id Em). exact Ht1.
+  - rewrite Ha. destruct (mem id _) eqn:Em.
+    + rewrite (Hopen id Em). split; [intros Hx; contradiction|].
+      intros (c & a & Hc). exfalso. rewrite del_all_lookup in Hc.
+      destruct (decide ((c, id) ∈ K)) as [|Hnk]; [discriminate|].
+      apply mem_In, in_map_iff in Em as ([c' i] & Hi & Hk). cbn in Hi. subst i.
+      destruct (Hpres _ Hk) as [a' Hc']. pose proof (Huq _ _ _ _ _ Hc Hc'). subst c'.
+      apply Hnk, elem_of_list_In. exact Hk.
+    + apply mem_not_In in Em. rewrite Fo. split; intros (c & a & Hc); exists c, a.
+      * rewrite del_all_lookup. destruct (decide ((c, id) ∈ K)) as [Hk|]; [|exact Hc].
+        exfalso. apply Em. apply elem_of_list_In in Hk. apply in_map_iff. exists (c, id). auto.
+      * apply del_all_lookup_Some in Hc. exact Hc.
+  - rewrite Hn. intros Hid. destruct (mem id _) eqn:Em; [|apply Fn; exact Hid].
+    apply mem_In, in_map_iff in Em as ([c i] & Hi & Hk). cbn in Hi. subst i.
+    destruct (Hpres _ Hk) as [a Hc]. apply Hal in Hc. lia.
+Qed.
+
+Lemma shape_fate st st' ev tr :
+  allocs_wf (reg st) -> shape st st' ev -> fate_inv st tr -> fate_inv st' (tr ++ ev).
+Proof.
+  intros Hwf Hs F.
+  destruct Hs as [Hirr Ha Hn | from ars rest -> Hirr Ha Hn | C K HC -> Hnd Hpres Ha Hn].
+  - (* no allocation event *)
+    destruct F as [Fb Fo Fn].
+    constructor; intros id; rewrite fate_of_app, fate_fold_irrelevant by exact Hirr; rewrite ?Ha, ?Hn; auto.
+  - (* new allocations *)
+    destruct Hwf as [Hal Huq]. destruct F as [Fb Fo Fn].
+    assert (Hf : forall id, fate_of id (tr ++ map EvAlloc (seqZ (next_id (reg st)) (length ars)) ++ rest) =
+                 if mem id (seqZ (next_id (reg st)) (length ars)) then tau_alloc (fate_of id tr) else fate_of id tr).
+    { intros id. rewrite fate_of_app, fold_left_app, fate_fold_irrelevant by exact Hirr.
+      apply (fate_fold_kind id EvAlloc tau_alloc (fate_step_alloc id)). apply seqZ_NoDup. }
+    constructor; intros id; rewrite Hf.
+    + destruct (mem id _) eqn:Em; [|apply Fb].
+      apply mem_In, seqZ_In in Em. rewrite (Fn id) by lia. discriminate.
+    + rewrite Ha. destruct (mem id _) eqn:Em.
+      * apply mem_In, seqZ_In in Em. rewrite (Fn id) by lia. cbn. split; [intros _|reflexivity].
+        destruct (nth_error ars (Z.to_nat (id - next_id (reg st)))) as [rq|] eqn:En.
+        -- exists from, (mk_alloc from rq). rewrite insert_allocs_lookup.
+           destruct (decide _) as [_|Hx]; [|exfalso; apply Hx; split; [reflexivity|lia]].
+           rewrite En. reflexivity.
+        -- apply nth_error_None in En. lia.
+      * apply mem_not_In in Em. rewrite seqZ_In in Em. rewrite Fo. split.
+        -- intros (c & a & Hc). exists c, a. rewrite insert_allocs_lookup.
+           destruct (decide _) as [[_ Hr]|_]; [lia|exact Hc].
+        -- intros (c & a & Hc). rewrite insert_allocs_lookup in Hc.
+           destruct (decide _) as [[_ Hr]|_]; [lia|eauto].
+    + rewrite Hn. intros Hid. destruct (mem id _) eqn:Em.
+      * apply mem_In, seqZ_In in Em. lia.
+      * apply Fn. lia.
+  - (* claimed or refunded *)
+    destruct HC as [-> | ->].
+    + apply (del_fate st st' tr EvClaim tau_claim K); auto; try discriminate; intros; reflexivity.
+    + apply (del_fate st st' tr EvAllocRemoved tau_refund K); auto; try discriminate; intros; reflexivity.
+Qed.
+
+Lemma fate_inv_init w : fate_inv (init w) [].
+Proof.
+  constructor; intros id; cbn.
+  - discriminate.
+  - split; [discriminate|]. intros (c & a & H). rewrite lookup_empty in H. discriminate.
+  - reflexivity.
+Qed.
+
+Lemma runt_fate st tr ops :
+  world_ok (wld st) -> callers_ok ops -> reg_inv st -> fate_inv st tr ->
+  fate_inv (fst (runt st tr ops)) (snd (runt st tr ops)).
+Proof.
+  revert st tr. induction ops as [|o r IH]; intros st tr Hw Hc I F; [exact F|].
+  inversion Hc as [|? ? Ho Hr]; subst. cbn [runt].
+  destruct (step_inv st o Hw Ho I) as [I' Hw'].
+  apply IH; auto; [rewrite Hw'; exact Hw|].
+  unfold step. destruct (exec st o) as [[[st' x] ev]|c] eqn:E; cbn [fst snd evs fail].
+  - eapply shape_fate; [apply I|eapply exec_shape; eauto|exact F].
+  - rewrite app_nil_r. exact F.
+Qed.
+
+Theorem allocation_fate_unique w ops id :
+  world_ok w -> callers_ok ops ->
+  let st := run (init w) ops in
+  let f := fate_of id (trace (init w) ops) in
+  f <> FBad /\
+  (f = FOpen <-> exists c a, allocs (reg st) !! (c, id) = Some a) /\
+  (next_id (reg st) <= id -> f = FNone) /\
+  (forall c c' a a', allocs (reg st) !! (c, id) = Some a -> allocs (reg st) !! (c', id) = Some a' -> c = c') /\
+  (forall c a, allocs (reg st) !! (c, id) = Some a -> a_client a = c /\ 1 <= id < next_id (reg st)).
+Proof.
+  intros Hw Hc st f.
+  pose proof (runt_fate (init w) [] ops Hw Hc (init_inv w) (fate_inv_init w)) as [Fb Fo Fn].
+  rewrite runt_fst in *. fold st in Fo, Fn.
+  pose proof (run_inv w ops Hw Hc) as I. fold st in I. destruct (ri_allocs _ I) as [Hal Huq].
+  subst f. unfold trace. splits; auto.
+  intros c c' a a'. apply Huq.
+Qed.
+
+(* ---------- which message can emit which allocation event ---------- *)
+Definition event_allowed (o : op) (e : event) : bool :=
+  match e with
+  | EvAlloc _ => emits_allocs o
+  | EvClaim _ => emits_claims o
+  | EvAllocRemoved _ => emits_refunds o
+  | _ => true
+  end.
+
+Lemma irrelevant_allowed o l e :
+  Forall (fun e => alloc_event e = false) l -> In e l -> event_allowed o e = true.
+Proof.
+  intros HF Hl. rewrite Forall_forall in HF. specialize (HF _ Hl). destruct e; cbn in *; congruence.
+Qed.
+
+Lemma deliver_events st ep from to am p st' ids ev e :
+  deliver st ep from to am p = Ok (st', ids, ev) -> In e ev ->
+  match e with EvAlloc _ | EvClaimUpdated _ => True | _ => False end.
+Proof.
+  unfold deliver. intros H Hin. destruct (to =? VR).
+  - apply receiver_hook_spec in H as (ars & ers & ups & _ & _ & _ & _ & _ & _ & _ & _ & _ & _ & _ & _ & ->).
+    apply in_app_or in Hin as [Hin|Hin]; apply in_map_iff in Hin as (x & <- & _); exact I.
+  - destruct (_ =? OK); [|discriminate]. injection H as _ _ <-. destruct Hin.
+Qed.
+
+Lemma extend_terms_events cl caller terms codes ev cl' codes' ev' e :
+  extend_terms cl caller terms codes ev = (cl', codes', ev') -> In e ev' ->
+  In e ev \/ exists i, e = EvClaimUpdated i.
+Proof.
+  revert cl codes ev. induction terms as [|[[p i] tm] rest IH]; intros cl codes ev H Hin; cbn in H.
+  - injection H as _ _ <-. left. exact Hin.
+  - destruct (_ <? tm); [eapply IH; eauto|]. destruct (cl !! (p, i)); [|eapply IH; eauto].
+    destruct (negb _); [eapply IH; eauto|]. destruct (tm <? _); [eapply IH; eauto|].
+    destruct (IH _ _ _ H Hin) as [Hx|Hx]; [|right; exact Hx].
+    apply in_app_or in Hx as [Hx|[<-|[]]]; [left; exact Hx|right; eauto].
+Qed.
+
+Theorem event_sources st o e : In e (evs (snd (step st o))) -> event_allowed o e = true.
+Proof.
+  unfold step. destruct (exec st o) as [[[st' r] ev]|c] eqn:E; cbn [snd evs fail]; [|intros []].
+  intros Hin. destruct o; cbn [exec] in E.
+  - unfold add_verifier in E. rinv E. injection E as _ _ <-. destruct Hin as [<-|[]]. reflexivity.
+  - unfold remove_verifier in E. rinv E. injection E as _ _ <-. destruct Hin as [<-|[]]. reflexivity.
+  - unfold add_verified_client in E. rinv E. injection E as _ _ <-. destruct Hin as [<-|[]]. reflexivity.
+  - unfold remove_data_cap in E. rinv E. injection E as _ _ <-. destruct Hin.
+  - apply rbind_ok in E as ([[s i] v] & H & H2). cbn in H2. injection H2 as _ _ <-.
+    unfold dc_transfer in H. destruct (negb _); [discriminate|].
+    apply rbind_ok in H as (t1 & _ & Hd). pose proof (deliver_events _ _ _ _ _ _ _ _ _ _ Hd Hin).
+    destruct e; try contradiction; reflexivity.
+  - apply rbind_ok in E as ([[s i] v] & H & H2). cbn in H2. injection H2 as _ _ <-.
+    unfold dc_transfer_from in H. destruct (negb _); [discriminate|].
+    apply rbind_ok in H as (t1 & _ & Hd). pose proof (deliver_events _ _ _ _ _ _ _ _ _ _ Hd Hin).
+    destruct e; try contradiction; reflexivity.
+  - apply claim_allocations_spec in E as (_ & K & acc & HK & _ & _ & _ & -> & _).
+    rewrite (pg_evs _ _ _ _ _ _ _ HK) in Hin. apply in_map_iff in Hin as (k & <- & _). reflexivity.
+  - apply remove_expired_allocations_spec in E as (_ & _ & _ & _ & _ & _ & ->).
+    apply in_map_iff in Hin as (k & <- & _). reflexivity.
+  - apply remove_expired_claims_spec in E as (_ & _ & _ & _ & ->).
+    apply in_map_iff in Hin as (k & <- & _). reflexivity.
+  - unfold extend_claim_terms in E. destruct (extend_terms _ _ _ _ _) as [[cl codes] ev0] eqn:Ee.
+    injection E as _ _ <-. destruct (extend_terms_events _ _ _ _ _ _ _ _ e Ee Hin) as [[]|(i & ->)]. reflexivity.
+  - unfold get_claims in E. injection E as _ _ <-. destruct Hin.
+  - apply rbind_ok in E as (t & _ & H). injection H as _ _ <-. destruct Hin.
+  - apply rbind_ok in E as (t & _ & H). injection H as _ _ <-. destruct Hin.
+  - destruct (delta <? 0); [discriminate|]. injection E as _ _ <-. destruct Hin.
+  - destruct (delta <? 0); [discriminate|]. injection E as _ _ <-. destruct Hin.
+  - injection E as _ _ <-. destruct Hin.
 Qed.
